@@ -23,7 +23,9 @@ theorem skipWS_ws_append (ws : Bytes) (hws : ws.all isSpace = true) (c : Char) (
 
 /-- **`seekInstanceEnd` finds the end of every rendered parameter list and collects exactly its references.**
     `ts` is any token list (references, strings, comments, parentheses, any other bytes) that is balanced inside one
-    outer pair of parentheses; strings may contain anything but a backslash (apostrophes doubled), comments anything
+    outer pair of parentheses; strings follow `GetLiteralStr`'s real rule: any bytes (backslashes and control directives included),
+    apostrophes doubled, a single apostrophe after `\\S\\` (`SChar.sect`); the only exclusion is the rule's own ambiguity (an apostrophe pair or
+    the closing apostrophe directly after the three bytes `\\S\\`, `strOkAux`); comments anything
     but `*`, `/`, `'` — in particular `#`, `#12`, `(`, `)`, `;`, `=`.  After the closing `)` any white space, then `;`.
     The scanner stops right after that `;` and reports the `#n` tokens, in order — nothing from inside strings or comments. -/
 theorem C10_scan_body (ts : List Tok) (hall : ∀ t ∈ ts, t.ok = true) (hseq : seqOk ts = true)
@@ -50,8 +52,8 @@ theorem C10_scan_body (ts : List Tok) (hall : ∀ t ∈ ts, t.ok = true) (hseq :
 
 /-- non-vacuity: `('it''s #5 (( ;',/*#7 ( ;*/ #12,(#3))` followed by ` ;` -/
 example :
-    let ts : List Tok := [.str [.plain 'i', .plain 't', .quote, .plain 's', .plain ' ', .plain '#', .plain '5',
-        .plain '(', .plain '(', .plain ';'], .other ',', .cmt ['#', '7', ' ', '(', ' ', ';'], .ref ['1', '2'],
+    let ts : List Tok := [.str [.plain 'i', .plain 't', .quote, .plain 's', .plain ' ', .sect, .plain '#', .plain '5',
+        .plain '\\', .plain 'X', .plain '\\', .plain '2', .plain '7', .plain '(', .plain '(', .plain ';', .plain '\\', .plain '\\'], .other ',', .cmt ['#', '7', ' ', '(', ' ', ';'], .ref ['1', '2'],
         .other ',', .popen, .ref ['3'], .pclose]
     (∀ t ∈ ts, t.ok = true) ∧ seqOk ts = true ∧ innerOk 1 ts = true ∧ depthAfter 1 ts = 1 ∧
       refsOfToks ts = [12, 3] := by
